@@ -94,6 +94,8 @@ def check(run, repo, world):
 
     # ---- SetGroups --------------------------------------------------------
     m, fn, _ = world.func(MOD + ".SetGroups")
+    from ..normal import pull_tests_through_conversion
+    fn = pull_tests_through_conversion(fn, world, MOD)
     fn = normalise(fn, world, MOD, primitives=("QueryGroups",))
     S = MOD + ".SetGroups"
     scfg = gen_cfg(fn, S)
